@@ -557,3 +557,34 @@ def x12(cx: Cx, ob: Ob) -> None:
     from ..rules import package_lints
 
     package_lints(cx, ob, {'api.py'})
+
+
+def check_identifier_hook(cx: Cx, ob: Ob) -> None:
+    """The default Converter.standardize_identifier hands its identifier back unchanged on every path."""
+    fn = cx.fn(f"{CONV}.standardize_identifier", ob.id)
+    s = cx.summary(fn, ob.id)
+    ident = ("param", "identifier") if fn.param("identifier") is not None else ("param", fn.params[-1].name)
+    ob.site(f"{fn.where} {fn.qualname}", "default identifier hook")
+    for t, ctx in s.returns():
+        if t != ident:
+            ob.violate(
+                fn.qualname,
+                where(fn, ctx.path.out[2]),
+                f"the default standardize_identifier returns `{show(t)[:60]}` on some path instead of its identifier unchanged: expand / expand_all / standardize_curie (which go through the hook) rewrite or reject identifiers that expand_pair, compress and standardize_uri (which do not) keep",
+                witness="expand('GO:GO:0032571') vs expand_pair('GO', 'GO:0032571'); or a record with a pattern and a non-matching identifier",
+                detail="hook-not-identity",
+            )
+    for t, ctx in s.raises():
+        ob.violate(fn.qualname, where(fn, ctx.path.out[2]), "the default standardize_identifier raises", detail="hook-raises")
+
+
+@obligation("C02-D8", "the default standardize_identifier hook is the identity (the remainder of a CURIE reaches the URI untouched; expand and expand_pair agree)", floor=1)
+def d8(cx: Cx, ob: Ob) -> None:
+    check_identifier_hook(cx, ob)
+
+
+@obligation("C02-X15", "configuration propagation (shared with C09-D4): converters derived from a converter keep its delimiter, so the derived converter splits and joins CURIEs where its parent does", floor=2)
+def x15(cx: Cx, ob: Ob) -> None:
+    from .c09 import d4 as propagation
+
+    propagation(cx, ob)
